@@ -13,8 +13,8 @@ of the trusted set are captured from the real run), plus the option-free encoder
 Oracle: metamorphic end-to-end runs (K5): the same input under sampled subsets of every documented option flag of every
 class must give the same solved status and the same objective as the all-off baseline.
 """
-import json, random, itertools
-from fpv import models, k2, gen
+import json, random, itertools, time
+from fpv import models, k2, gen, inject
 from fpv.common import frac
 
 THEOREMS = ["FP.Props.C05.opt_preserved", "FP.Props.C05.sat_append", "FP.Props.C05.lowerBound_row_equiv",
@@ -93,6 +93,8 @@ def outcome(fp, inst, opts):
         m = models.build(fp, inst2)
     except ValueError as e:
         return ("rejected", str(e)[:80])
+    log = inject.instrument_statuses(fp)
+    del log[:]
     try:
         ok = bool(m.solve())
     except SystemExit:
@@ -100,6 +102,10 @@ def outcome(fp, inst, opts):
     except ValueError as e:             # Min* wrappers construct their k-models (and meet option conflicts) in solve()
         return ("rejected", str(e)[:80])
     if not ok:
+        # a run that ended on a time limit / solver error is no verdict: nothing to compare (C13 covers what is reported)
+        bad = [st for st in log if st not in ("kOptimal", "kInfeasible")]
+        if bad:
+            return ("inconclusive", bad[0])
         return ("unsolved", None)
     try:
         obj = m.get_objective_value()
@@ -124,15 +130,21 @@ def metamorphic(ctx, inst, flagsets, suite="K5.metamorphic"):
     cls = inst["cls"]
     allf = flags_of(cls)
     base_opts = {f: False for f in allf}
+    t0 = time.time()
     ref = outcome(fp, inst, base_opts)
+    t_ref = time.time() - t0
     ctx.rep.count(suite, [inst, "baseline"], nontrivial=False, hist=[cls, "baseline:" + ref[0]])
+    if ref[0] == "inconclusive":
+        return ref                      # the solver gave no verdict on the baseline: nothing to compare with
+    if t_ref > (8 if ctx.quick() else 40):
+        flagsets = list(flagsets)[:3]   # a hard instance: a few flag sets only, the run stays within its budget
     for fs in flagsets:
         opts = dict(base_opts, **{f: True for f in fs})
         got = outcome(fp, inst, opts)
         ctx.rep.cov["oracle_evaluations"] += 1
-        ctx.rep.count(suite, [inst, sorted(fs)], nontrivial=bool(fs) and got[0] != "rejected",
+        ctx.rep.count(suite, [inst, sorted(fs)], nontrivial=bool(fs) and got[0] not in ("rejected", "inconclusive"),
                       hist=[cls, got[0]] + [f"flag:{f}" for f in fs])
-        if got[0] == "rejected":
+        if got[0] in ("rejected", "inconclusive"):
             continue
         if not same(ref, got):
             ctx.violation(f"{cls}: with options {sorted(fs)} the outcome is {got}, with all options off it is {ref}",
@@ -142,7 +154,7 @@ def metamorphic(ctx, inst, flagsets, suite="K5.metamorphic"):
     got = outcome(fp, inst, {})
     ctx.rep.cov["oracle_evaluations"] += 1
     ctx.rep.count(suite, [inst, "defaults"], nontrivial=True, hist=[cls, "defaults", got[0]])
-    if got[0] != "rejected" and not same(ref, got):
+    if got[0] not in ("rejected", "inconclusive") and not same(ref, got):
         ctx.violation(f"{cls}: with default options the outcome is {got}, with all options off it is {ref}",
                       dict(inst, flags=["<defaults>"], baseline=list(ref), outcome=list(got)), site=f"{cls}:defaults")
     return ref
